@@ -209,7 +209,10 @@ def _run_native(contract, sname, values, fn=None):
 
 
 def _short(v):
-    s = repr(v)
+    try:
+        s = repr(v)
+    except Exception as e:   # __repr__ of repository objects may itself fail (e.g. zero uncertainty)
+        s = f"<{type(v).__name__}: repr raised {type(e).__name__}>"
     return s if len(s) < 200 else s[:200] + "..."
 
 
